@@ -179,6 +179,8 @@ type LiteIndex struct {
 	SQL     string
 	// key + aux columns in b-tree order
 	Cols []LiteIndexCol
+	// the rowid keyword that is not shadowed by a declared column of the table
+	RowidKw string
 }
 
 type LiteIndexCol struct {
@@ -236,7 +238,7 @@ func LiteSchema(l *lite.DB) ([]LiteTable, error) {
 		}
 		for _, ir := range il {
 			// seq name unique origin partial
-			ix := LiteIndex{Name: ir[1].(string), Unique: ir[2].(int64) != 0, Origin: ir[3].(string), Partial: ir[4].(int64) != 0}
+			ix := LiteIndex{Name: ir[1].(string), Unique: ir[2].(int64) != 0, Origin: ir[3].(string), Partial: ir[4].(int64) != 0, RowidKw: RowidKeyword(t.Cols)}
 			sq, _ := l.Query(`SELECT sql FROM sqlite_master WHERE type='index' AND name=?1`, ix.Name)
 			if len(sq) == 1 {
 				if s, ok := sq[0][0].(string); ok {
@@ -279,7 +281,10 @@ func (ix *LiteIndex) OrderBy(exprs []string) (string, bool) {
 		var t string
 		switch {
 		case c.Cid == -1:
-			t = "rowid"
+			t = ix.RowidKw
+			if t == "" {
+				t = "rowid"
+			}
 		case c.Cid == -2:
 			if e >= len(exprs) {
 				return "", false
